@@ -2,7 +2,7 @@
 sequences); the harness records what the server model received; NcRequestTrace.tla validates every request (NcFraming!Strict, id sequence, round trip, tree, option effects)."""
 import json
 import os
-from vlib import ToolError, validate_traces
+from vlib import ToolError, validate_traces, confirm
 
 SCN = """SPECIFICATION Spec
 CONSTANTS Seed = %d
@@ -53,11 +53,20 @@ def _run_main(ctx):
     if len(res) != len(scns):
         raise ToolError("c03 answered %d of %d; stderr:\n%s" % (len(res), len(scns), ctx.last_stderr[-3000:]))
     byid = {s["id"]: s for s in scns}
+    confirmed = {}
     nreq = 0
     for rr in res:
         ctx.count()
         if not rr["ok"]:
-            ctx.violation(rr["sig"], rr["detail"], byid[rr["id"]])
+            st = confirmed.setdefault(rr["sig"], {"ok": 0, "tries": 0})
+            if st["ok"]:
+                ctx.violation(rr["sig"], rr["detail"], byid[rr["id"]])
+            elif st["tries"] < 4:
+                st["tries"] += 1
+                bad = confirm(ctx, "c03", byid[rr["id"]], args=["-out", os.path.join(ctx.tmp, "c03again.ndjson")])      # a candidate must reproduce alone
+                if bad:
+                    st["ok"] += 1
+                    ctx.violation(bad["sig"], bad["detail"], byid[rr["id"]])
         else:
             nreq += rr.get("extra", 1) - 1
     lines = open(trace).read().splitlines()
